@@ -36,6 +36,10 @@ var classes = []*Class{
 	{ID: "gnum", VarName: "num", Full: `[1-9][0-9]*`, Samples: []string{"1", "22", "90"}, Near: []string{"0", "01", "a"}},
 	{ID: "gany", VarName: "any", Full: `[^/]+`, Samples: []string{"1", "abc", "x.y"}, Near: []string{""}},
 	{ID: "gall", VarName: "all", Full: `.*`, Samples: []string{"a", "a/b", "ab/x.y/1"}, Spans: true},
+	// a variable that is NAMED like a global var but carries its own regex: the inline regex is the contract
+	{ID: "any-ac", VarName: "any", Re: `[a-c]+`, Full: `[a-c]+`, Samples: []string{"a", "abc", "cab"}, Near: []string{"d", "ab1", "x.y"}},
+	{ID: "all-word", VarName: "all", Re: `\w+`, Full: `\w+`, Samples: []string{"a1", "_c", "abc"}, Near: []string{"a-b", "a/b", ""}},
+	{ID: "num-zero", VarName: "num", Re: `0\d*`, Full: `0\d*`, Samples: []string{"0", "007", "01"}, Near: []string{"1", "12", "a"}},
 }
 
 var classByID = map[string]*Class{}
